@@ -51,11 +51,24 @@ type Case struct {
 	Calls []Call `json:"calls"`
 }
 
+func isGeneric(typ string) bool { return typ == "T" || typ == "T Liste" }
+
+func (f Fn) generic() bool {
+	for _, p := range f.Params {
+		if isGeneric(p.Type) {
+			return true
+		}
+	}
+	return false
+}
+
 func paramSrc(p Param) string {
 	if !p.Ref {
 		return p.Type
 	}
 	switch p.Type {
+	case "T Liste":
+		return "T Listen Referenz"
 	case "Zahl":
 		return "Zahlen Referenz"
 	case "Kommazahl":
@@ -71,6 +84,9 @@ func fnSrc(f Fn) string {
 	pub := ""
 	if f.Mod == "lib" {
 		pub = "öffentliche "
+	}
+	if f.generic() {
+		pub += "generische "
 	}
 	fmt.Fprintf(&sb, "Die %sFunktion %s ", pub, f.Name)
 	switch len(f.Params) {
@@ -183,8 +199,9 @@ func render(c Case) (files map[string]string, callVars []string) {
 // predict: which function must the call resolve to? ("" = no candidate type-matches -> rejected; "?" = tie)
 func predict(c Case, cl Call) (callee string, negExpected bool, nCandidates int) {
 	type cand struct {
-		f    Fn
-		refs int
+		f       Fn
+		refs    int
+		generic bool
 	}
 	var ok []cand
 	for _, f := range c.Fns {
@@ -222,6 +239,7 @@ func predict(c Case, cl Call) (callee string, negExpected bool, nCandidates int)
 		ai := 0
 		refs := 0
 		typed := true
+		bound := "" // what the type parameter T is bound to
 		for i := range pat {
 			switch {
 			case pat[i].Word != "" && shape[i].Word != "":
@@ -229,7 +247,22 @@ func predict(c Case, cl Call) (callee string, negExpected bool, nCandidates int)
 			case pat[i].Word == "" && shape[i].Word == "":
 				p := f.Params[pat[i].Param]
 				a := cl.Args[ai]
-				if p.Type != a.Type || (p.Ref && !a.Assignable) {
+				want := p.Type
+				if isGeneric(p.Type) { // T matches any type, T Liste any list type; one binding per call
+					elem := a.Type
+					if p.Type == "T Liste" {
+						if a.Type != "Zahlen Liste" {
+							typed = false
+						}
+						elem = "Zahl"
+					}
+					if bound != "" && bound != elem {
+						typed = false
+					}
+					bound = elem
+					want = a.Type
+				}
+				if want != a.Type || (p.Ref && !a.Assignable) {
 					typed = false
 				}
 				if p.Ref {
@@ -247,14 +280,20 @@ func predict(c Case, cl Call) (callee string, negExpected bool, nCandidates int)
 		}
 		nCandidates++
 		if typed {
-			ok = append(ok, cand{f, refs})
+			ok = append(ok, cand{f, refs, f.generic()})
 		}
 	}
 	if len(ok) == 0 {
 		return "", false, nCandidates
 	}
-	sort.SliceStable(ok, func(i, j int) bool { return ok[i].refs > ok[j].refs })
-	if len(ok) > 1 && ok[0].refs == ok[1].refs {
+	// on equal length: a non-generic declaration before a generic one, then more Referenz parameters
+	sort.SliceStable(ok, func(i, j int) bool {
+		if ok[i].generic != ok[j].generic {
+			return !ok[i].generic
+		}
+		return ok[i].refs > ok[j].refs
+	})
+	if len(ok) > 1 && ok[0].refs == ok[1].refs && ok[0].generic == ok[1].generic {
 		return "?", false, nCandidates
 	}
 	return ok[0].f.Name, cl.Negated, nCandidates
@@ -433,7 +472,22 @@ func genCase(t *rapid.T) Case {
 			f.Params = append([]Param(nil), b.Params...)
 			f.Pattern = append([]Item(nil), b.Pattern...)
 			f.RetsBool = b.RetsBool
-			switch rapid.IntRange(0, 4).Draw(t, "variation") {
+			switch rapid.IntRange(0, 6).Draw(t, "variation") {
+			case 5, 6: // generic twin: one parameter (or every parameter of that type) becomes a type parameter
+				if len(f.Params) > 0 {
+					k := rapid.IntRange(0, len(f.Params)-1).Draw(t, "which")
+					old := f.Params[k].Type
+					all := rapid.Bool().Draw(t, "all-of-that-type")
+					for j := range f.Params {
+						if (j == k || (all && f.Params[j].Type == old)) && !isGeneric(f.Params[j].Type) {
+							if f.Params[j].Type == "Zahlen Liste" && rapid.Bool().Draw(t, "T-Liste") {
+								f.Params[j].Type = "T Liste"
+							} else {
+								f.Params[j].Type = "T"
+							}
+						}
+					}
+				}
 			case 0: // other parameter type
 				if len(f.Params) > 0 {
 					k := rapid.IntRange(0, len(f.Params)-1).Draw(t, "which")
@@ -509,6 +563,12 @@ func genCase(t *rapid.T) Case {
 			}
 			p := f.Params[it.Param]
 			typ := p.Type
+			switch typ { // a type parameter is bound by the argument
+			case "T":
+				typ = rapid.SampledFrom(ptypes).Draw(t, "bound-type")
+			case "T Liste":
+				typ = "Zahlen Liste"
+			}
 			if rapid.IntRange(0, 7).Draw(t, "mistype") == 0 {
 				typ = rapid.SampledFrom(ptypes).Draw(t, "othertype")
 			}
